@@ -111,6 +111,10 @@ def check(ctx, rep):
     rep.rule("R13a", "operands interpolated into HTML/WML built by the server: escaped in text, quote-escaped or percent-encoded in attributes", floor=20)
     rep.rule("R13b", "HTTP header lines interpolate only server-chosen values", floor=2)
     rep.rule("R13c", "redirect page: URL escaped with quotes; filter rejects \" CR LF TAB NUL", floor=5)
+    rep.rule("R13e", "= R03m: names, selectors and other data are arguments of the format operations that build markup, never part of the format "
+             "string - escaping does not touch `%` and braces, so `{img}` in a file name would be interpreted a second time", floor=1)
+    from .c03 import format_string_obligations
+    format_string_obligations(ctx, rep, "R13e")
     rep.rule("R13d", "Gopher+ blocks: attribute text only via splitlines() behind a ' ' prefix; block names constant/config", floor=3)
     rep.rule("R13e", "HTML titles and mail subjects are whitespace-collapsed before setname", floor=2)
     rep.assume("the configuration (pagetopper, footer, admin) is trusted markup/text")
